@@ -735,6 +735,17 @@ class LogOperationRecorder(BaseOperationRecorder):
         self._http_response_headers = headers
         self._http_response_conn_id = conn_id
 
+    @staticmethod
+    def _payload_str(payload):
+        """
+        Return the (possibly truncated) response payload as a string for
+        logging. The payload may not be valid UTF-8, and truncation may have
+        cut a multi-byte character; that must not make logging fail.
+        """
+        if isinstance(payload, bytes):
+            return payload.decode('utf-8', 'replace')
+        return payload
+
     def stage_http_response2(self, payload):
         """Log complete http response, including response1 and payload"""
 
@@ -754,10 +765,10 @@ class LogOperationRecorder(BaseOperationRecorder):
             if self.http_detail_level == 'summary':
                 upayload = ""
             elif self.http_maxlen and (len(payload) > self.http_maxlen):
-                upayload = (_ensure_unicode(payload[:self.http_maxlen]) +
+                upayload = (self._payload_str(payload[:self.http_maxlen]) +
                             '...')
             else:
-                upayload = _ensure_unicode(payload)
+                upayload = self._payload_str(payload)
             upayload = repr(upayload)
             if upayload.startswith("u'"):
                 upayload = upayload[1:]
